@@ -1,6 +1,7 @@
 import Usid.Driver.J
 import Usid.Driver.Process
 import Usid.Driver.Crash
+import Usid.Driver.Groups
 /-! Line-protocol driver over the hand-written models: one JSON request per line on stdin,
     one JSON response per line on stdout. -/
 namespace Usid.Driver
@@ -10,7 +11,8 @@ def handlers : List (String × (Json → R Json)) := [
   ("proc.ranks", hProcRanks),
   ("proc.socket", hSocket),
   ("proc.run", hProcRun),
-  ("crash.wf", hCrashWf), ("crash.trace", hCrashTrace), ("crash.resume", hCrashResume)
+  ("crash.wf", hCrashWf), ("crash.trace", hCrashTrace), ("crash.resume", hCrashResume),
+  ("grp.run", hGrpRun)
 ]
 
 def respond (tbl : List (String × (Json → R Json))) (line : String) : String :=
